@@ -19,7 +19,7 @@ EXTENDS Sync, TLC
 
 CONSTANTS Spur,      \* budget of spurious wake-ups
           ProgSet,   \* set of program assignments [Thr -> Seq(op)]
-          Bug        \* "none" | "if" (predicate checked once) | "noadd" (deadline = time_to_wait) | "noerr" (loop ignores err_code)
+          Bug        \* "none" | "if" (predicate checked once) | "noadd" (deadline = time_to_wait)
 
 VARIABLES prog, pc, ip, mo, cw, res, dl, ec, fl, sh, lv, now, spur, bad
 ivars == <<prog, pc, ip, mo, cw, res, dl, ec, fl, sh, lv, now, spur, bad>>
@@ -93,7 +93,7 @@ IWaitBegin(t) ==
 
 (* while (!err_code && !pred(pred_ctx)) err_code = wait...(); return err_code; *)
 CallsWait(t) == \/ pc[t] = "once"
-                \/ pc[t] = "loop" /\ (ec[t] = 0 \/ Bug = "noerr") /\ fl[PredOf(Cur(t))] = 0
+                \/ pc[t] = "loop" /\ ec[t] = 0 /\ fl[PredOf(Cur(t))] = 0
 DeadlineOf(t) == IF Bug = "noadd" THEN DurOf(Cur(t)) ELSE now + DurOf(Cur(t))
 ILoop(t) ==
     /\ pc[t] \in {"loop", "once", "ret"}
@@ -142,9 +142,9 @@ ISleepRet(t) ==
     /\ Goto(t, "run") /\ Adv(t) /\ Obs(SleepRet(t, W(now)))
     /\ UNCHANGED <<prog, mo, cw, res, dl, ec, fl, sh, lv, now, spur>>
 ITick ==
-    LET T == {t \in Thr : dl[t] # NoDl} IN
-    /\ T # {}
-    /\ LET m == MinOf({dl[t] : t \in T})
+    /\ \E t \in Thr : dl[t] # NoDl
+    /\ LET T == {t \in Thr : dl[t] # NoDl}
+           m == MinOf({dl[t] : t \in T})
            n2 == IF m > now THEN m ELSE now
            X == {t \in T : dl[t] <= n2}
        IN /\ now' = n2
@@ -203,7 +203,7 @@ ProgNeverSet == P(WaitFP(1, 2), <<<<"sleep", 1>>, <<"nt1">>>> \o Cs, <<<<"try">>
 ProgRace == P(WaitFP(1, 1), <<<<"sleep", 1>>>> \o SetOut(1, "nt1"), WaitF(1))                 \* setter races the deadline
 ProgZero == P(WaitFP(1, 0), SetIn(1, "nt1"), <<<<"try">>>> \o WaitF(0))                       \* time_to_wait = 0
 ProgMutex == P(Cs \o <<<<"try">>>>, <<<<"try">>>> \o Cs, Cs)
-ProgChain == P(WaitP(1) \o SetOut(2, "ntall"), WaitFP(2, 3), <<<<"sleep", 2>>>> \o SetOut(1, "nt1"))
+ProgChain == P(WaitP(1) \o SetOut(2, "ntall"), WaitFP(2, 3), <<<<"sleep", 2>>>> \o SetOut(1, "ntall"))   \* (nt1 here could wake thread 2 only: a lost wake-up of the program, TLC reports the deadlock)
 
 ProgsQuick == {ProgWrongWake, ProgTwoPreds, ProgOneEach, ProgNeverSet, ProgRace, ProgZero, ProgMutex}
 ProgsAll == ProgsQuick \cup {ProgChain}
